@@ -3,6 +3,6 @@ CONSTANTS
  Inv <- MC_Inv
  SinkOf <- MC_SinkOf
  Out <- MC_Out
- Variant = "local"
-INVARIANTS ExportBad OwnOutcome OwnEvent OwnData OneInCrit
+ Variant = "shared-event"
+INVARIANTS OwnEvent
 CHECK_DEADLOCK FALSE
